@@ -2,7 +2,7 @@
 EXTENDS EchConn, Json
 KS1 == {"K1"}
 \* ... up to four held keys that share the config id and the suite, the target in the last position; an undecodable entry first
-KS3 == {"K1", "K3K1", "K2K1", "K2K6K3K1", "KXK2K1"}
+KS3 == {"K1", "K3K1", "K2K1", "K2K6K3K1", "KXK2K1", "K4K1", "K2K4K1"}
 FirstAll == {"acc", "grease", "plain"}
 FirstAcc == {"acc"}
 \* emit maximal histories and aborted ones
